@@ -504,7 +504,9 @@ pub fn make_comparator(
              }
             downcast_integer! {
                  l_key.as_ref(), r_key.as_ref() => (dict_helper, left, right, opts),
-                 _ => unreachable!()
+                 _ => Err(ArrowError::InvalidArgumentError(
+                     "Can't compare arrays of different types".to_string(),
+                 ))
              }
         },
         (RunEndEncoded(l_run_ends, _), RunEndEncoded(r_run_ends, _)) => {
